@@ -2,6 +2,7 @@ package main
 
 import (
 	"bytes"
+	"crypto/rand"
 	"errors"
 	"fmt"
 	"strings"
@@ -16,7 +17,7 @@ import (
 func init() {
 	register(stream{
 		name: "meta",
-		rule: "key validation (nil, empty, 1–64 bytes, all-zero, one non-zero byte) against the model; plaintexts (empty, short, long, binary, invalid UTF-8) × key pairs: AddEncrypted then GetEncryptedString/GetEncryptedBytes, directly and after the token is sealed and unsealed (delegation and invocation, DAG-CBOR and DAG-JSON), with the right key, a wrong key, and EVERY single-bit modification of the stored value — the decryption verdict of x/crypto's secretbox.Open computed by the harness is given to the model as an oracle; stored length = plaintext + 40; two encryptions of one value differ; the plaintext occurs neither in the stored value nor in the sealed token. Non-trivial = every case. Distinct = distinct protocol lines.",
+		rule: "key validation (nil, empty, 1–64 bytes, all-zero, one non-zero byte) against the model; plaintexts (empty, short, long, binary, invalid UTF-8) × key pairs: AddEncrypted then GetEncryptedString/GetEncryptedBytes, directly and after the token is sealed and unsealed (delegation and invocation, DAG-CBOR and DAG-JSON), with the right key, a wrong key, and EVERY single-bit modification of the stored value — the decryption verdict of x/crypto's secretbox.Open computed by the harness is given to the model as an oracle; stored length = plaintext + 40; two encryptions of one value differ; crypto/rand.Reader replaced by a source that fails after 0…30 bytes (encryption must fail unless a whole nonce was drawn, and store the drawn nonce); the plaintext occurs neither in the stored value nor in the sealed token. Non-trivial = every case. Distinct = distinct protocol lines.",
 		run:  runMetaStream,
 		eval: evalMeta,
 		cmp: func(line, g, m string) string {
@@ -102,6 +103,26 @@ func evalMeta(line string) (out string, rd string) {
 			return "err", rd
 		}
 		return "ok " + hx(got), rd
+	case "meta.entropy":
+		// the entropy source delivers exactly the given bytes, then fails: AddEncrypted must fail unless
+		// a whole nonce arrived, and the nonce stored must be what was drawn
+		var key []byte
+		if f[1] != "nil" {
+			key = []byte(unhx(f[1]))
+		}
+		saved := rand.Reader
+		rand.Reader = &failingReader{data: []byte(unhx(f[2]))}
+		m := meta.NewMeta()
+		err := m.AddEncrypted("k", []byte("value"), key)
+		rand.Reader = saved
+		if err != nil {
+			return "err", rd
+		}
+		b, _ := m.GetBytes("k")
+		if len(b) < 24 {
+			return "short-stored-value", rd
+		}
+		return "ok " + hx(b[:24]), rd
 	case "meta.len":
 		var n int
 		fmt.Sscan(f[1], &n)
@@ -121,6 +142,18 @@ func evalMeta(line string) (out string, rd string) {
 }
 
 var metaPlain = [][]byte{{}, []byte("a"), []byte("secret-value-0123456789"), bytes.Repeat([]byte("long plaintext! "), 200), {0, 1, 2, 0xff, 0xfe, 0}, []byte("h\xc3\xa9llo \xff\xfe")}
+
+// failingReader delivers its data, then an error
+type failingReader struct{ data []byte }
+
+func (r *failingReader) Read(p []byte) (int, error) {
+	if len(r.data) == 0 {
+		return 0, errors.New("entropy source failed")
+	}
+	n := copy(p, r.data)
+	r.data = r.data[n:]
+	return n, nil
+}
 
 func openOracle(key, stored []byte) string {
 	if len(key) != 32 || len(stored) < 24 {
@@ -249,6 +282,12 @@ func runMetaStream(c *ctx) error {
 	}
 	for _, n := range []int{0, 1, 15, 16, 17, 1000} {
 		c.emit(fmt.Sprintf("meta.len %d", n), "meta.layout", true, "layout")
+	}
+	// a failing entropy source: 0…30 bytes delivered before the failure, good and bad keys
+	for _, n := range []int{0, 1, 5, 23, 24, 25, 30} {
+		for _, k := range []string{hx(bytes.Repeat([]byte{3}, 32)), "nil", hx(make([]byte, 32)), hx(bytes.Repeat([]byte{3}, 16))} {
+			c.emit("meta.entropy "+k+" "+hx(bytes.Repeat([]byte{0xa5}, n)), "meta.entropy", true, "entropy-fault")
+		}
 	}
 	for i := 0; i < 12; i++ {
 		c.emit(fmt.Sprintf("go.meta.roundtrip %d", i), "meta.roundtrip", true, "roundtrip")
